@@ -24,6 +24,11 @@ pub fn rs_from_be(b: &[u8]) -> Option<RS> {
 
 /// the Fiat-Shamir challenge of the documented transcript
 pub fn ref_challenge<R: RefG>(t: &Tables, pk: &R::K, c1: &R::K, c2: &R::K, r1: &R::K, r2: &R::K) -> RS {
+    ref_challenge_gen::<R>(t, pk, &ref_hm::<R>(t), c1, c2, r1, r2)
+}
+
+/// the same transcript over a caller-supplied message generator: the "generator" entry absorbs the generator in use
+pub fn ref_challenge_gen<R: RefG>(t: &Tables, pk: &R::K, gen: &R::K, c1: &R::K, c2: &R::K, r1: &R::K, r2: &R::K) -> RS {
     let m = &t.0["merlin"];
     let proto: &'static [u8] = Box::leak(gets(m, "proto").as_bytes().to_vec().into_boxed_slice());
     let mut tr = merlin::Transcript::new(proto);
@@ -33,7 +38,7 @@ pub fn ref_challenge<R: RefG>(t: &Tables, pk: &R::K, c1: &R::K, c2: &R::K, r1: &
         let data: Vec<u8> = match what {
             "P" => R::enc_k(&R::K::generator()),
             "pk" => R::enc_k(pk),
-            "Hm" => R::enc_k(&ref_hm::<R>(t)),
+            "Hm" => R::enc_k(gen),
             "c1" => R::enc_k(c1),
             "c2" => R::enc_k(c2),
             "r1" => R::enc_k(r1),
@@ -51,6 +56,9 @@ pub fn ref_challenge<R: RefG>(t: &Tables, pk: &R::K, c1: &R::K, c2: &R::K, r1: &
 
 /// reference verification of (c1, c2, mp, bp, ch) for pk
 pub fn ref_verify<R: RefG>(t: &Tables, pk: &R::K, c1: &R::K, c2: &R::K, mp: &RS, bp: &RS, ch: &RS) -> bool {
+    ref_verify_gen::<R>(t, pk, &ref_hm::<R>(t), c1, c2, mp, bp, ch)
+}
+pub fn ref_verify_gen<R: RefG>(t: &Tables, pk: &R::K, gen: &R::K, c1: &R::K, c2: &R::K, mp: &RS, bp: &RS, ch: &RS) -> bool {
     if bool::from(pk.is_identity()) || bool::from(c1.is_identity()) || bool::from(c2.is_identity()) {
         return false;
     }
@@ -58,8 +66,8 @@ pub fn ref_verify<R: RefG>(t: &Tables, pk: &R::K, c1: &R::K, c2: &R::K, mp: &RS,
         return false;
     }
     let r1 = *c1 * (-*ch) + R::K::generator() * *bp;
-    let r2 = *c2 * (-*ch) + ref_hm::<R>(t) * *mp + *pk * *bp;
-    ref_challenge::<R>(t, pk, c1, c2, &r1, &r2) == *ch
+    let r2 = *c2 * (-*ch) + *gen * *mp + *pk * *bp;
+    ref_challenge_gen::<R>(t, pk, gen, c1, c2, &r1, &r2) == *ch
 }
 
 fn pt_from_bytes<C: BlsSignatureImpl>(b: &[u8]) -> <C as Pairing>::PublicKey {
@@ -241,6 +249,12 @@ where
                             }
                             if <C as BlsElGamal>::verify_proof(pk.0, None, c1, c2, mp, bp, ch).is_ok() {
                                 return Outcome::fail(json!({}), "a proof over another generator verifies for the default generator");
+                            }
+                            // the documented transcript binds the generator in use: the independent verifier accepts it
+                            let cv = |p: &<C as Pairing>::PublicKey| R::dec_k(&enc_k::<C>(p)).unwrap();
+                            let sv = |x: &Sc<C>| rs_from_be(&SecretKey::<C>(*x).to_be_bytes()).unwrap();
+                            if !ref_verify_gen::<R>(tables, &cv(&pk.0), &cv(&g2), &cv(&c1), &cv(&c2), &sv(&mp), &sv(&bp), &sv(&ch)) {
+                                return Outcome::fail(json!({}), "the independent verifier rejects a library proof over a caller-supplied generator (transcript does not bind the generator in use)");
                             }
                         }
                         Err(e) => return Outcome::fail(json!({}), format!("seal_scalar_with_proof with a generator refused: {e}")),
